@@ -480,6 +480,7 @@ func (c *Check) transitionRelation(rule string) map[string][]int64 {
 // openSent/openConfirm and on every exit of established.
 func (c *Check) cleanupOnExit(rule string) {
 	p := c.P
+	c.cleanupContract(rule)
 	for _, s := range []struct {
 		fn       string
 		progress string
@@ -558,4 +559,90 @@ func (c *Check) cleanupOnExit(rule string) {
 func isStateTyped(t types.Type) bool {
 	n, ok := t.(*types.Named)
 	return ok && n.Obj().Name() == "fsmState"
+}
+
+// cleanupContract: what the callers of cleanupConnAndReader rely on.
+// With a connection present (f.conn != nil) the connection is closed on every
+// path -- also when no reader was ever started for it (an accepted connection
+// whose FSM is stopped before it sent its OPEN) --, it is closed *before* the
+// reader is joined (only the close wakes a reader parked in Read on a silent
+// peer), and f.conn is nil when the function returns (a stale non-nil conn
+// makes active() treat it as a fresh inbound connection).
+func (c *Check) cleanupContract(rule string) {
+	p := c.P
+	fn := p.Fn("fsm.cleanupConnAndReader")
+	if fn == nil {
+		return
+	}
+	a := NewAnalysis(p, fn)
+	a.AtomHook = func(e *Expr) (ISet, bool) {
+		if e.Op == "nn" && isLoadOfField(e.Args[0], "conn") {
+			return isConst(1), true
+		}
+		return nil, false
+	}
+	a.Run()
+	for _, u := range a.Undecided {
+		c.undecided(rule, "fsm.cleanupConnAndReader", "analysis", p.Pos(fn.Pos()), u)
+	}
+	// a deferred function (registered before any return) that closes / resets
+	deferredClose, deferredReset := false, false
+	ownInstrs(fn, func(in ssa.Instruction) {
+		d, ok := in.(*ssa.Defer)
+		if !ok || in.Block().Index != 0 {
+			return
+		}
+		if t := p.staticLocalCallee(d); t != nil {
+			if len(p.callsDeep(t, descIs("invoke:net.Conn.Close"))) > 0 {
+				deferredClose = true
+			}
+			allInstrs(t, func(x ssa.Instruction) {
+				if st, isS := x.(*ssa.Store); isS {
+					if fa, isF := st.Addr.(*ssa.FieldAddr); isF && structFieldName(fa) == "conn" {
+						if cst, isC := st.Val.(*ssa.Const); isC && cst.Value == nil {
+							deferredReset = true
+						}
+					}
+				}
+			})
+		}
+	})
+	okClose, okReset := len(a.Returns) > 0, len(a.Returns) > 0
+	for _, r := range a.Returns {
+		st := r.State
+		if !st.must["call:invoke:net.Conn.Close"] && !deferredClose {
+			okClose = false
+		}
+		reset := deferredReset
+		for k, v := range st.mem {
+			if me := st.memE[k]; me != nil && me.Op == "fa" && me.S == "conn" && v.IsNil() {
+				reset = true
+			}
+		}
+		if !reset {
+			okReset = false
+		}
+	}
+	c.require(okClose, rule, "fsm.cleanupConnAndReader", "a present connection is closed on every path", p.Pos(fn.Pos()),
+		"with f.conn != nil, conn.Close() is called before every return (also when no reader was started)")
+	c.require(okReset, rule, "fsm.cleanupConnAndReader", "f.conn is nil on return", p.Pos(fn.Pos()),
+		"every return leaves f.conn == nil (store on the path or in a defer registered at entry)")
+	// the join follows the close
+	nj := 0
+	allInstrs(fn, func(in ssa.Instruction) {
+		u, ok := in.(*ssa.UnOp)
+		if !ok || u.Op.String() != "<-" || chanFieldName(u.X) != "readerDoneCh" {
+			return
+		}
+		nj++
+		okO := len(a.At[in]) > 0
+		for _, st := range a.At[in] {
+			if !st.must["call:invoke:net.Conn.Close"] {
+				okO = false
+			}
+		}
+		c.require(okO, rule, "fsm.cleanupConnAndReader", "close before join", p.InstrPos(in),
+			"the connection is closed before the reader goroutine is waited for (a reader parked in Read is woken by nothing else)")
+	})
+	c.floor(rule, nj, 1, "joins of the reader in cleanupConnAndReader")
 }
